@@ -136,7 +136,7 @@ impl Keys {
     }
     fn coq(&self) -> String {
         match self {
-            Keys::List(v) => format!("(KList {})", g_list(v, |k| k.to_string())),
+            Keys::List(v) => g_items(v),
             Keys::Arith { start, step, n } => format!("(KArith {} {} false {})", start, step, n),
         }
     }
@@ -157,6 +157,13 @@ fn g_items(v: &[u64]) -> String {
         });
         if ok {
             return format!("(KArith {} {} {} {})", v[0], step, g_bool(down), v.len());
+        }
+    }
+    // large keys close together: one large numeral and small offsets (large
+    // numerals are slow to parse in Coq)
+    if let (Some(min), Some(max)) = (v.iter().min(), v.iter().max()) {
+        if *min >= (1 << 32) && max - min < (1 << 32) {
+            return format!("(KOff {} {})", min, g_list(v, |k| (k - min).to_string()));
         }
     }
     format!("(KList {})", g_list(v, |k| k.to_string()))
@@ -396,7 +403,9 @@ fn generate(opts: &Opts) -> Vec<Case> {
     // ---- small scope, exhaustive: every size 0..=40 x every limit 1..=42 (+ absent) x both orders
     for n in 0..=40usize {
         for (oi, o) in orders.iter().enumerate() {
-            let ks = keys(&mut rng, n, n + oi);
+            // mostly small keys; every fourth collection uses the large-key styles
+            let st = if (n + oi) % 4 == 3 { 2 + (n / 4) % 2 } else { (n + oi) % 2 };
+            let ks = keys(&mut rng, n, st);
             let limits: Vec<Option<u64>> = std::iter::once(None).chain((1..=42u64).map(Some)).collect();
             cases.push(Case::Grid { order: o.to_string(), keys: ks, limits });
         }
@@ -422,33 +431,28 @@ fn generate(opts: &Opts) -> Vec<Case> {
         sizes.extend([9999, 10000, 10001, 20001]);
     }
     let mut style = 0usize;
+    // the model walks the whole collection once per page: bound n * pages per case
+    let cap: usize = if opts.thorough { 7_000_000 } else { 1_100_000 };
     for n in sizes {
         for (oi, o) in orders.iter().enumerate() {
-            for l in &lim_set {
+            for (li, l) in lim_set.iter().enumerate() {
                 let eff = match l {
                     None => 100,
                     Some(x) => (*x).min(10000) as usize,
                 };
                 let pages = n / eff + 1;
-                // the model walks the collection once per page: keep the product moderate
-                let budget_pages = if opts.thorough { 3400 } else { 1000 };
-                if pages > budget_pages {
+                let work = n * pages;
+                if work > cap {
                     continue;
                 }
-                if !opts.thorough {
-                    // quick: long scans in one order only; thin out the big collections
-                    if pages > 400 && oi == 1 {
-                        continue;
-                    }
-                    if n > 1000 && !matches!(l, None | Some(99) | Some(9999) | Some(10000) | Some(10001) | Some(4294967295)) {
-                        continue;
-                    }
-                    if n > 1000 && (n + oi) % 2 == 1 && !matches!(l, Some(10000) | Some(10001)) {
-                        continue;
-                    }
+                // costly scans: one order only (alternating)
+                let costly = if opts.thorough { 1_500_000 } else { 150_000 };
+                if work > costly && (n + li + oi) % 2 == 1 {
+                    continue;
                 }
                 style += 1;
-                let ks = keys(&mut rng, n, style);
+                let st = if n <= 1000 { [0, 1, 1, 0, 2, 1, 0, 3][style % 8] } else { style };
+                let ks = keys(&mut rng, n, st);
                 cases.push(Case::Scan { order: o.to_string(), keys: ks, limit: *l });
             }
         }
@@ -475,7 +479,8 @@ fn generate(opts: &Opts) -> Vec<Case> {
         }
         style += 1;
         let o = orders[rng.below(2)];
-        cases.push(Case::Scan { order: o.to_string(), keys: keys(&mut rng, n, style), limit: l });
+        let st = [0, 1, 1, 0, 2, 1, 0, 3][style % 8];
+        cases.push(Case::Scan { order: o.to_string(), keys: keys(&mut rng, n, st), limit: l });
     }
     // the driver cuts the output into consecutive shards: mix cheap and costly cases
     rng.shuffle(&mut cases);
